@@ -18,6 +18,28 @@ from sympy.logic.boolalg import BooleanAtom, BooleanFalse, BooleanFunction, Bool
 BOOLT = (BooleanFunction, BooleanAtom, Relational)
 
 
+class Ite(sp.Function):
+    """if-then-else on terms: an *opaque* function symbol (sympy's Piecewise folds eagerly, which
+    both explodes on nested masks and evaluates dead branches such as log(0))."""
+
+    nargs = 3
+
+    @classmethod
+    def eval(cls, c, a, b):
+        if c is sp.true:
+            return a
+        if c is sp.false:
+            return b
+        if a == b:
+            return a
+
+    def _eval_is_real(self):
+        return True
+
+    def _eval_is_extended_real(self):
+        return True
+
+
 def isbool(e) -> bool:
     """is the term a truth value?  (sympy's Symbol is a subclass of Boolean, so isinstance(e, Boolean) is useless)"""
     return isinstance(e, BOOLT)
@@ -124,7 +146,7 @@ def num(e):
             return sp.Integer(1)
         if e is sp.false:
             return sp.Integer(0)
-        return sp.Piecewise((sp.Integer(1), e), (sp.Integer(0), True))
+        return Ite(e, sp.Integer(1), sp.Integer(0))
     return e
 
 
@@ -148,31 +170,37 @@ def ite(c, a, b):
         return sp.Or(sp.And(c, a), sp.And(sp.Not(c), b))
     if a == b:
         return a
-    return sp.Piecewise((a, c), (b, True))
+    return Ite(c, a, b)
+
+
+def _leaf_ok(v):
+    return v.is_number or v is sp.true or v is sp.false or isinstance(v, sp.Symbol)
 
 
 def const_leaved(e) -> bool:
-    """Piecewise all of whose leaves are numbers / truth values (an index or constant selected by masks)"""
+    """if-then-else tree all of whose leaves are numbers / symbols / truth values (an index or a
+    table constant selected by masks)"""
+    if isinstance(e, Ite):
+        return all(const_leaved(v) or _leaf_ok(v) for v in e.args[1:])
     if isinstance(e, sp.Piecewise):
-        return all(const_leaved(v) or v.is_number or v is sp.true or v is sp.false or isinstance(v, sp.Symbol) for v, c in e.args)
+        return all(const_leaved(v) or _leaf_ok(v) for v, c in e.args)
     return False
 
 
 def map_leaves(e, f):
-    """apply f to the leaves of a (nested) Piecewise without building Eq(Piecewise, k) terms; if the
+    """apply f to the leaves of an if-then-else tree without building Eq(tree, k) terms; if the
     leaves become truth values the result is the equivalent boolean formula"""
+    if isinstance(e, Ite):
+        c, a, b = e.args
+        fa, fb = map_leaves(a, f), map_leaves(b, f)
+        if isbool(fa) and isbool(fb):
+            return sp.Or(sp.And(c, fa), sp.And(sp.Not(c), fb))
+        return Ite(c, num(fa) if isbool(fa) else fa, num(fb) if isbool(fb) else fb)
     if isinstance(e, sp.Piecewise):
-        parts = [(map_leaves(v, f), c) for v, c in e.args]
-        if all(isbool(v) for v, c in parts):
-            out, neg = [], []
-            for v, c in parts:
-                cond = sp.And(*(neg + [c]))
-                if v is not sp.false:
-                    out.append(cond if v is sp.true else sp.And(cond, v))
-                neg.append(sp.Not(c))
-            return sp.Or(*out)
-        parts = [(num(v) if isbool(v) else v, c) for v, c in parts]
-        return sp.Piecewise(*parts, evaluate=False)
+        t = None
+        for v, c in reversed(e.args):
+            t = v if (t is None and c is sp.true) else Ite(c, v, t if t is not None else sp.nan)
+        return map_leaves(t, f)
     return f(e)
 
 
@@ -869,6 +897,22 @@ class A:
     def sum(self, axis=None, **k):
         return asum(self, axis)
 
+    def any(self, axis=None, **k):
+        """exists an element that is true: Sigma(0/1) > 0"""
+        if axis is not None:
+            raise Unsupported("any(axis=...)")
+        return S(sp.Gt(asum(A(self.axes, num(boo(self.e)), self.dom)).e, 0))
+
+    def all(self, axis=None, **k):
+        if axis is not None:
+            raise Unsupported("all(axis=...)")
+        return S(sp.Eq(asum(A(self.axes, num(sp.Not(boo(self.e))), self.dom)).e, 0))
+
+    def _cross(self, *a, **k):
+        raise Unsupported("cross-event reduction (max/min/mean/argmax/...) over a symbolic array")
+
+    max = min = mean = argmax = argmin = std = var = cumsum = prod = _cross
+
 
 def asum(x: A, axis=None):
     if axis is None:
@@ -925,3 +969,247 @@ class T:
 
     def __repr__(self):
         return "T(%s)" % self.name
+
+
+# --------------------------------------------------------------------------------------
+# Dep: opaque values for dependency (information-flow) analysis of numpy-heavy kernels
+# --------------------------------------------------------------------------------------
+
+
+def deps_of(x, depth=0):
+    if isinstance(x, Dep):
+        return x.deps
+    if isinstance(x, (S, A)):
+        return frozenset(str(s) for s in x.e.free_symbols)
+    if depth < 4:
+        if isinstance(x, (list, tuple, set, frozenset)):
+            out = frozenset()
+            for v in x:
+                out |= deps_of(v, depth + 1)
+            return out
+        if isinstance(x, dict):
+            out = frozenset()
+            for v in x.values():
+                out |= deps_of(v, depth + 1)
+            return out
+        if isinstance(x, slice):
+            return deps_of((x.start, x.stop, x.step), depth + 1)
+    return frozenset()
+
+
+def has_dep(x, depth=0):
+    if isinstance(x, Dep):
+        return True
+    if depth < 4:
+        if isinstance(x, (list, tuple, set, frozenset)):
+            return any(has_dep(v, depth + 1) for v in x)
+        if isinstance(x, dict):
+            return any(has_dep(v, depth + 1) for v in x.values())
+        if isinstance(x, slice):
+            return has_dep((x.start, x.stop, x.step), depth + 1)
+    return False
+
+
+class Dep:
+    """opaque value of unknown shape: value = U * factor, where U does not depend on the tracked
+    source (Dep.TRACK) and `factor` is an explicit term; mult=False means the value depends on
+    the tracked source in some other (non-multiplicative) way.  `deps` is the set of named
+    sources the value may depend on at all."""
+
+    __nss_symbolic__ = True
+    __array_ufunc__ = None
+    TRACK = sp.Symbol("zdet", positive=True)
+    CTL = {}  # control symbol -> (deps, tainted)
+    _n = 0
+
+    def __init__(self, deps=(), factor=sp.Integer(1), mult=True, label=""):
+        self.deps = frozenset(deps)
+        self.factor = factor
+        self.mult = mult
+        self.label = label
+
+    # -- helpers
+    @property
+    def tainted(self):
+        return (not self.mult) or (self.factor != 1)
+
+    @staticmethod
+    def _info(o):
+        """(deps, factor, mult, is_tracked_dependent) of any operand"""
+        if isinstance(o, Dep):
+            return o.deps, o.factor, o.mult
+        if isinstance(o, (S, A)):
+            e = num(o.e)
+            if Dep.TRACK in e.free_symbols:
+                return deps_of(o), e, True
+            return deps_of(o), sp.Integer(1), True
+        if has_dep(o):
+            d = deps_of(o)
+            return d, sp.Integer(1), True
+        return frozenset(), sp.Integer(1), True
+
+    def _generic(self, *others):
+        deps = self.deps
+        t = self.tainted
+        for o in others:
+            d, f, m = Dep._info(o)
+            deps |= d
+            t = t or (f != 1) or (not m)
+        return Dep(deps, sp.Integer(1), not t)
+
+    def _mul(self, o, inv=False, swap=False):
+        d, f, m = Dep._info(o)
+        if swap:  # o / self
+            fac = f / self.factor
+        else:
+            fac = self.factor / f if inv else self.factor * f
+        return Dep(self.deps | d, sp.simplify(fac) if fac != 1 else fac, self.mult and m)
+
+    def _add(self, o):
+        d, f, m = Dep._info(o)
+        if self.mult and m and f == self.factor and isinstance(o, Dep):
+            return Dep(self.deps | d, self.factor, True)
+        t = self.tainted or (f != 1) or (not m)
+        return Dep(self.deps | d, sp.Integer(1), not t)
+
+    def __mul__(self, o):
+        return self._mul(o)
+
+    __rmul__ = __mul__
+
+    def __truediv__(self, o):
+        return self._mul(o, inv=True)
+
+    def __rtruediv__(self, o):
+        return self._mul(o, swap=True)
+
+    def __imul__(self, o):
+        r = self._mul(o)
+        self.deps, self.factor, self.mult = r.deps, r.factor, r.mult
+        Hooks.effect("inplace", self, "*=")
+        return self
+
+    def __itruediv__(self, o):
+        r = self._mul(o, inv=True)
+        self.deps, self.factor, self.mult = r.deps, r.factor, r.mult
+        Hooks.effect("inplace", self, "/=")
+        return self
+
+    def __add__(self, o):
+        return self._add(o)
+
+    __radd__ = __add__
+    __sub__ = __add__
+    __rsub__ = __add__
+
+    def _iadd(self, o):
+        r = self._add(o)
+        self.deps, self.factor, self.mult = r.deps, r.factor, r.mult
+        Hooks.effect("inplace", self, "+=")
+        return self
+
+    __iadd__ = _iadd
+    __isub__ = _iadd
+
+    def _g2(self, o):
+        return self._generic(o)
+
+    __pow__ = __rpow__ = __mod__ = __rmod__ = __floordiv__ = __rfloordiv__ = _g2
+    __lt__ = __le__ = __gt__ = __ge__ = _g2
+    __and__ = __rand__ = __or__ = __ror__ = __xor__ = __rxor__ = _g2
+    __matmul__ = __rmatmul__ = _g2
+
+    def _ig(self, o):
+        r = self._generic(o)
+        self.deps, self.factor, self.mult = r.deps, r.factor, r.mult
+        Hooks.effect("inplace", self, "op=")
+        return self
+
+    __iand__ = __ior__ = __ixor__ = __ipow__ = __imod__ = _ig
+
+    def __eq__(self, o):  # noqa
+        return self._generic(o)
+
+    def __ne__(self, o):  # noqa
+        return self._generic(o)
+
+    __hash__ = object.__hash__
+
+    def __neg__(self):
+        return Dep(self.deps, self.factor, self.mult)
+
+    __pos__ = __neg__
+
+    def __abs__(self):
+        return self._generic()
+
+    def __invert__(self):
+        return self._generic()
+
+    def __getitem__(self, idx):
+        d, f, m = Dep._info(idx)
+        t = (f != 1) or (not m)
+        return Dep(self.deps | d, self.factor if not t else sp.Integer(1), self.mult and not t)
+
+    def __setitem__(self, idx, v):
+        d1, f1, m1 = Dep._info(idx)
+        d2, f2, m2 = Dep._info(v)
+        same = m1 and f1 == 1 and m2 and (f2 == self.factor)
+        self.deps = self.deps | d1 | d2
+        if not same:
+            t = self.tainted or (f1 != 1) or (f2 != 1) or (not m1) or (not m2)
+            if t:
+                self.factor, self.mult = sp.Integer(1), False
+        Hooks.effect("store", self, "[...]")
+
+    def __bool__(self):
+        Dep._n += 1
+        c = sp.Symbol("ctl%d" % Dep._n, real=True)
+        Dep.CTL[c] = (self.deps, self.tainted)
+        raise SymBranch(sp.Ne(c, 0))
+
+    def __iter__(self):
+        raise Unsupported("iteration over an opaque (Dep) value")
+
+    def __len__(self):
+        raise Unsupported("len() of an opaque value must go through the interpreter")
+
+    def __float__(self):
+        raise Unsupported("float() of an opaque value")
+
+    def __int__(self):
+        raise Unsupported("int() of an opaque value")
+
+    def __index__(self):
+        raise Unsupported("index from an opaque value")
+
+    def __getattr__(self, name):
+        if name.startswith("__"):
+            raise AttributeError(name)
+        if name == "shape":
+            return DepShape(self.deps, sp.Integer(1), not self.tainted)
+        if name in ("T", "size", "ndim", "real", "imag", "flat", "dtype"):
+            return Dep(self.deps, self.factor if name == "T" else sp.Integer(1), self.mult if name == "T" else not self.tainted)
+        return DepMethod(self, name)
+
+    def __repr__(self):
+        return "Dep(%s%s%s)" % (",".join(sorted(self.deps)), "" if self.factor == 1 else " * %s" % self.factor, "" if self.mult else " NONMULT")
+
+
+class DepShape(Dep):
+    """shape of an opaque array: a tuple of unknown length; unpacking it yields one opaque entry"""
+
+    def __iter__(self):
+        return iter([Dep(self.deps, sp.Integer(1), self.mult)])
+
+
+class DepMethod:
+    __nss_symbolic__ = True
+
+    def __init__(self, obj, name):
+        self.obj, self.name = obj, name
+
+    def __call__(self, *a, **k):
+        if self.name in ("copy", "astype", "ravel", "flatten", "squeeze", "reshape", "transpose"):
+            return Dep(self.obj.deps, self.obj.factor, self.obj.mult)
+        return self.obj._generic(*a, *k.values())
